@@ -10,8 +10,10 @@ replace github.com/gobuffalo/pop/v6 => github.com/ory/pop/v6 v6.2.1-0.2024112111
 
 require (
 	github.com/gofrs/uuid v4.4.0+incompatible
+	github.com/julienschmidt/httprouter v1.3.0
 	github.com/ory/keto v0.0.0
 	github.com/ory/keto/proto v0.13.0-alpha.0
+	github.com/ory/x v0.0.708
 	github.com/sirupsen/logrus v1.9.3
 	google.golang.org/protobuf v1.36.6
 )
@@ -86,7 +88,6 @@ require (
 	github.com/jmoiron/sqlx v1.4.0 // indirect
 	github.com/joho/godotenv v1.5.1 // indirect
 	github.com/josharian/intern v1.0.0 // indirect
-	github.com/julienschmidt/httprouter v1.3.0 // indirect
 	github.com/kballard/go-shellquote v0.0.0-20180428030007-95032a82bc51 // indirect
 	github.com/klauspost/compress v1.18.0 // indirect
 	github.com/knadh/koanf/maps v0.1.1 // indirect
@@ -118,7 +119,6 @@ require (
 	github.com/ory/graceful v0.1.3 // indirect
 	github.com/ory/herodot v0.10.3-0.20250318104651-3179543efba8 // indirect
 	github.com/ory/jsonschema/v3 v3.0.9-0.20250317235931-280c5fc7bf0e // indirect
-	github.com/ory/x v0.0.708 // indirect
 	github.com/pelletier/go-toml v1.9.5 // indirect
 	github.com/pkg/errors v0.9.1 // indirect
 	github.com/pmezard/go-difflib v1.0.1-0.20181226105442-5d4384ee4fb2 // indirect
